@@ -190,9 +190,15 @@ func (ctx Context) createFirstLinePango(layout *text.TextLayoutPango,
 
 			// Mapping between glyphs and characters
 			utf8Position := utf8Positions[i]
-			outGlyph.TextOffset, outGlyph.TextLength = prevUtf8Position, utf8Position-prevUtf8Position
+			// clusters are in decreasing order in right-to-left runs :
+			// the mapped text is then empty (as a Python slice is)
+			textEnd := utf8Position
+			if textEnd < prevUtf8Position {
+				textEnd = prevUtf8Position
+			}
+			outGlyph.TextOffset, outGlyph.TextLength = prevUtf8Position, textEnd-prevUtf8Position
 			if _, in := outFont.Cmap[outGlyph.Glyph]; !in {
-				outFont.Cmap[outGlyph.Glyph] = textRunes[prevUtf8Position:utf8Position]
+				outFont.Cmap[outGlyph.Glyph] = textRunes[prevUtf8Position:textEnd]
 			}
 			prevUtf8Position = utf8Position
 
